@@ -72,7 +72,9 @@ func (f *verifC17_baseFileFetcher) GetFile(ctx context.Context, blobDigest diges
 		return status.Error(codes.Unavailable, "storage down")
 	}
 	d := directory.(*verifC17_fakeDir)
-	rt.Assert(d.entries[name.String()] == nil, "a file is only downloaded to a name that is still free")
+	if d.entries[name.String()] != nil {
+		return syscall.EEXIST // the file is created exclusively
+	}
 	d.entries[name.String()] = &verifC17_inode{contents: blobDigest.GetHashString(), isExecutable: isExecutable}
 	return nil
 }
@@ -141,7 +143,7 @@ func (r *verifC17_hlRig) checkCache() {
 }
 
 func verifHarness_C17_HardlinkingFileFetcher() {
-	rt.MustCover("hl:from-cache", "hl:from-cache-after-eviction", "hl:repaired", "hl:error")
+	rt.MustCover("hl:from-cache", "hl:from-cache-after-eviction", "hl:repaired", "hl:error", "hl:name-taken")
 	r := verifC17_newHLRig()
 	steps := 3
 	if rt.Tier() > 0 {
@@ -166,7 +168,24 @@ func verifHarness_C17_HardlinkingFileFetcher() {
 		}
 		callsBefore := r.base.calls
 		tracked := len(r.ff.filesSize)
-		err := r.fetch(names[k], i, isExecutable)
+		// A malformed input root may name a child twice: the second fetch then
+		// goes to a name that is already taken, and must fail without touching
+		// the file that is there.
+		name := names[k]
+		var taken *verifC17_inode
+		if k > 0 && rt.NondetBool("the name is already taken in the input root") {
+			if n := r.out.entries[names[0]]; n != nil {
+				name, taken = names[0], n
+			}
+		}
+		err := r.fetch(name, i, isExecutable)
+		if taken != nil {
+			rt.Assert(err != nil, "fetching a file to a name that is already taken surfaces as an error")
+			rt.Assert(r.out.entries[name] == taken, "the file that was already there is left alone")
+			rt.Cover("hl:name-taken")
+			r.checkCache()
+			continue
+		}
 		if err != nil {
 			rt.Assert((r.base.fail && r.base.calls > callsBefore) || r.cache.failRemove, "a fetch only fails when storage or the file system failed")
 			rt.Assert(r.out.entries[names[k]] == nil || !r.base.fail, "a fetch that failed in storage leaves nothing in the input root")
